@@ -82,11 +82,14 @@ class Unit:
                 meta["items"].append({"kind": kind, "name": it["name"], "file": it["file"],
                                       "lines": [r["start_line"], r["end_line"]]})
         prelude = ""
+        for sh in self.spec.get("unit", {}).get("shared", []):
+            with open(os.path.join(UNITS, "_shared", sh)) as f:
+                prelude += f.read() + "\n"
         pp = os.path.join(self.dir, self.spec.get("unit", {}).get("prelude", "prelude.rs"))
         if os.path.exists(pp):
             with open(pp) as f:
-                prelude = f.read()
-        for m in re.finditer(r"(external_body|assume_specification|admit\(\)|assume\()", prelude):
+                prelude += f.read()
+        for m in re.finditer(r"(external_body|assume_specification|broadcast axiom fn|admit\(\)|assume\()", prelude):
             line = prelude.count("\n", 0, m.start()) + 1
             ctx = prelude[m.start():prelude.find("\n", prelude.find("fn ", m.start()))].strip()
             meta["assumptions"].append("%s prelude.rs:%d %s" % (self.name, line, re.sub(r"\s+", " ", ctx)[:160]))
@@ -97,7 +100,7 @@ class Unit:
             else:
                 body.append("pub mod %s {\n#[allow(unused_imports)] use super::*;\n%s\n}\n#[allow(unused_imports)] use %s::*;" %
                             (module, "\n\n".join(mods[module]), module))
-        text = ("#![allow(unused_imports, unused_variables, dead_code, unused_mut, unused_assignments, non_snake_case)]\n"
+        text = ("#![feature(allocator_api)]\n#![allow(unused_imports, unused_variables, dead_code, unused_mut, unused_assignments, non_snake_case)]\n"
                 "use vstd::prelude::*;\nverus! {\n" + prelude + "\n\n" + "\n\n".join(body) + "\n} // verus!\nfn main() {}\n")
         if mutate:
             text = mutate(text)
